@@ -75,6 +75,16 @@ def work(task):
                 n_unknown += 1
             rec = {"name": ob.name, "id": stable_id(ob.name), "kind": ob.kind, "status": ob.status, "backend": ob.backend,
                    "time_s": round(ob.time_s, 3), "line": ob.line, "note": ob.note}
+            if ob.kind == "vacuity" and ob.status == "unknown":
+                # the quantified precondition is too hard for a model search: look for a small model of the
+                # bounded (quantifier-free) encoding instead
+                if brep is None:
+                    brep = gen(3)
+                bv = [b for b in brep.obligations if b.kind == "vacuity"]
+                if bv and bv[0].status == "discharged":
+                    rec["status"] = "discharged"
+                    rec["backend"] = "z3 (bounded encoding, lengths <= 3)"
+                    rec["note"] = "requires is satisfiable (model of the bounded encoding)"
             if ob.status in ("sat", "unknown") and ob.kind != "vacuity":
                 # refutation mode: bounded, quantifier-free re-encoding of the same obligation
                 if brep is None:
@@ -187,9 +197,18 @@ def main(argv=None):
             tasks.append(("lemma", modname, name, prop, dict(opts)))
     results = []
     if tasks:
+        import concurrent.futures as cf
         ctx = mp.get_context("fork")
-        with ctx.Pool(min(a.jobs, len(tasks))) as pool:
-            results = pool.map(work, tasks, chunksize=1)
+        budget = getattr(mod, "TASK_BUDGET_S", 900)
+        with cf.ProcessPoolExecutor(max_workers=min(a.jobs, len(tasks)), mp_context=ctx) as pool:
+            futs = [pool.submit(work, t) for t in tasks]
+            for t, f in zip(tasks, futs):
+                try:
+                    results.append(f.result(timeout=budget))
+                except Exception as e:   # worker died (BrokenProcessPool) or ran over its budget
+                    results.append({"key": t[2], "kind": t[0], "obligations": [], "undecided": [], "sha": None, "file": None,
+                                    "inlined": [], "callees": [], "externals": [], "search": None, "paths": 0,
+                                    "error": ["crash", f"worker failed: {e!r}"]})
     # extra (non-SMT) obligations and bounded stand-ins declared by the property module
     extra = []
     for fn in getattr(mod, "EXTRA", []):
